@@ -17,6 +17,12 @@ EXPECTED = [
 ]
 
 
+def _within(got, want):
+    """same variants; per variant at least one and at most the enumerated number of sites (merging two sites that return the
+    same error is a refactor, an additional site is a new condition)"""
+    return set(got) == set(want) and all(1 <= got[v] <= want[v] for v in want)
+
+
 def rule_reject_inventory(prog, res):
     cl = panics.closure(prog, panics.DEC_ROOTS)
     n = 0
@@ -28,7 +34,8 @@ def rule_reject_inventory(prog, res):
         fa = None
         for b in sorted(f.reachable()):
             for i, s in enumerate(f.blocks[b]["stmts"]):
-                if s["k"] == "assign" and s["place"]["local"] == 0 and not s["place"]["proj"] and s["rv"]["k"] == "aggregate" and s["rv"].get("vname") == "Err":
+                if s["k"] == "assign" and not s["place"]["proj"] and f.locals[s["place"]["local"]] == f.locals[0] \
+                        and s["rv"]["k"] == "aggregate" and s["rv"].get("vname") == "Err":
                     if fa is None:
                         fa = FA(f, prog)
                     v = fa.rv_term(s["rv"], (b, i))
@@ -42,7 +49,7 @@ def rule_reject_inventory(prog, res):
                 break
         if got or want:
             n += 1
-            res.ob("D-rej", "%s | direct rejections are exactly the enumerated ones" % p, dict(got) == want,
+            res.ob("D-rej", "%s | direct rejections are exactly the enumerated ones" % p, _within(got, want),
                    "found %s, expected %s (%s)" % (dict(got), want, why), f.loc,
                    sample={"function": p, "rejections": dict(got)} if n <= 2 else None)
     if "all_msgs" in set(prog.crate["features"]):
@@ -79,7 +86,8 @@ def rule_encode_reject_inventory(prog, res, only=None):
         fa = None
         for b in sorted(f.reachable()):
             for i, s in enumerate(f.blocks[b]["stmts"]):
-                if s["k"] == "assign" and s["place"]["local"] == 0 and not s["place"]["proj"] and s["rv"]["k"] == "aggregate" and s["rv"].get("vname") == "Err":
+                if s["k"] == "assign" and not s["place"]["proj"] and f.locals[s["place"]["local"]] == f.locals[0] \
+                        and s["rv"]["k"] == "aggregate" and s["rv"].get("vname") == "Err":
                     if fa is None:
                         fa = FA(f, prog)
                     v = fa.rv_term(s["rv"], (b, i))
@@ -95,7 +103,7 @@ def rule_encode_reject_inventory(prog, res, only=None):
             continue      # a field without a bias has no refusal at all (the generic df entry is an upper bound)
         if got or want:
             n += 1
-            res.ob("E-rej", "%s | direct refusals are exactly the enumerated ones" % p, dict(got) == want,
+            res.ob("E-rej", "%s | direct refusals are exactly the enumerated ones" % p, _within(got, want),
                    "found %s, expected %s (%s)" % (dict(got), want, why), f.loc,
                    sample={"function": p, "refusals": dict(got)} if n <= 2 else None)
     return n
